@@ -379,16 +379,26 @@ func ExecuteScenario(env *Env, sc *Scenario) (out *Outcome, err error) {
 					if e := st.Resp.ExecErr; strings.Contains(e, sc.Module.ImportPath(pi)) || strings.Contains(e, filepath.Join(results[vi].x.Root, dir)+"/") || strings.Contains(e, filepath.Join("$ROOT", dir)+"/") {
 						continue
 					}
+					linked := false
 					pick := func(snap Snapshot) map[string]string {
 						out := map[string]string{}
 						for rel, fp := range snap {
+							if fp == "d" {
+								continue // a directory whose name has the output prefix is not an output
+							}
 							if filepath.Clean(filepath.Dir(rel)) == dir && strings.HasPrefix(filepath.Base(rel), sc.Base+".") {
 								out[rel] = fp
+								if strings.HasPrefix(fp, "l:") {
+									linked = true
+								}
 							}
 						}
 						return out
 					}
 					pre, post := pick(st.Pre), pick(st.Post)
+					if linked {
+						continue // (outputs that are symbolic links: the snapshots record the link, the alone state the content)
+					}
 					want := map[string]string{}
 					for rel, content := range filterDir(results[avi].state, dir) {
 						want[rel] = fmt.Sprintf("f:%x", sha256.Sum256([]byte(content)))
@@ -406,6 +416,12 @@ func ExecuteScenario(env *Env, sc *Scenario) (out *Outcome, err error) {
 			}
 			for p := range last.Executed {
 				executed[p] = true
+			}
+			if strings.HasPrefix(v.Name, "together:all-") {
+				// after a successful All run every local package counts, also those trusted as cached
+				for _, pi := range last.Local {
+					executed[sc.Module.ImportPath(pi)] = true
+				}
 			}
 			for pi, avi := range alone {
 				if !executed[sc.Module.ImportPath(pi)] {
